@@ -50,6 +50,13 @@ def run(ck):
                  "same iteration (a scheduled evaluation is never dropped), and every evaluation "
                  "follows a removal", 'M0', 2)
 
+    R8 = ck.rule('R10.8', "the 'instability' EdzedCircuitError is what edzed.run() raises: the simulation task's "
+                 "error is collected first and is not replaced by the error of a supporting coroutine that fails "
+                 "while it is being stopped", 'M1', 4)
+    with ck.section('R10.8'):
+        from rules.c09 import run_reports_first_error
+        run_reports_first_error(ck, R8)
+
     with ck.section('R10.6'):
         from rules.shared import enqueue_before_anything_can_fail
         enqueue_before_anything_can_fail(ck, R6)
